@@ -132,7 +132,8 @@ SPECS.update({
         rule="execute_encrypt writes through a fopencookie stream that logs every (offset, bytes) stdio hands down, for stdio buffer modes {default, unbuffered, 64-byte}; grid 5 cipher x 3 hash modes x T in {1,2,4} x 6 sizes "
              "(quick: a third of the product); EVERY prefix of the write log and EVERY byte prefix inside every write is materialised as a file and given to verify and decrypt; "
              "oracle: a state is accepted only if its bytes equal the complete file, and the complete file is accepted; one evaluation = verify+decrypt of one distinct crash state; distinct = grid cell",
-        assumptions=ASSUME_FILE + ["crash model = process death: writes reach the file in issue order, the last one possibly torn at any byte; no power-failure reordering (the property does not ask for it)"]),
+        post=lambda tier: __import__("vf.c13strace", fromlist=["run"]).run(tier),
+        assumptions=ASSUME_FILE + ["second history: strace of the real binary (write/pwrite64/lseek on the output file), same enumeration, states given to the real Wencry -v / -d", "crash model = process death: writes reach the file in issue order, the last one possibly torn at any byte; no power-failure reordering (the property does not ask for it)"]),
     "C18": dict(
         harness="fextra", src=["harness/fextra.cpp"], plan=extra_plan("c18", bufs=(1, 2)), level="exploration",
         rule="T=2..16 (quick: T<=4 fully, larger T on a 1/4 lattice), cipher modes 1..4, 7 seeds (empty, 1, 4, 255, 256, 304 characters, binary), plaintexts of 2T+1 chunks with (a) equal chunks (b) distinct chunks, chunk size 1 and 2 blocks; checks: IV fields pairwise distinct and seed dependent, "
